@@ -1228,6 +1228,48 @@ def gen_c12u(seed, count):
 PYGEN['py_c12u'] = gen_c12u
 
 
+def gen_c15s(seed, count):
+    """C15 inbound, pieces separated in TIME: a well-formed stream of PUBLISH packets is cut at every offset into two or
+    three pieces; between the pieces the read that is waiting is dropped - by the application (a poll() that gives up) or
+    by the client itself (the keep-alive deadline fires inside the wait) - and the rest arrives later.  What was read
+    before the drop must not be lost (seeded C15-r10 kept read progress in the dropped future)."""
+    out = []
+    for idx in range(count):
+        r = random.Random((seed << 20) ^ (idx // 40) ^ 0xc15f)
+        pkts = []
+        ids = r.sample([1, 2, 7, 9, 300, 65535], 3)
+        for k in range(r.randint(2, 3)):
+            q = r.choice([0, 1, 1, 2])
+            pkts.append(publish(q, ids[k] if q else 0, r.choice([b't', b't/a', 'caf\u00e9'.encode()]),
+                                bytes(r.randrange(256) for _ in range(r.choice([0, 1, 4, 9, 20]))),
+                                props=r.choice([(), (), ((1, 1),), ((38, (b'k', b'v')),)])))
+        stream = b''.join(pkts)
+        k1 = (idx % 40) * max(1, len(stream) // 40) + 1
+        k1 = min(k1, len(stream) - 1)
+        k2 = min(len(stream), k1 + r.choice([1, 2, 5, len(stream)]))
+        mode = (idx // 40) % 2
+        if mode == 0:
+            c = Case(rx=64, tx=256, ka=0)
+            c.connect(connack(0, 0, []))
+            c.feed(stream[:k1]); c.poll()
+            if r.random() < 0.4:
+                c.poll()
+            c.feed(stream[k1:k2]); c.poll()
+            c.feed(stream[k2:]); c.poll(len(pkts) + 2)
+        else:
+            ka = r.choice([2, 3, 10])
+            c = Case(rx=64, tx=256, ka=ka)
+            c.connect(connack(0, 0, []))
+            c.feed(stream[:k1])
+            c.feed(stream[k1:] + PINGRESP, delay=ka * 1000 + r.choice([1, 400, 900]))
+            c.poll(len(pkts) + 3)
+        out.append(c.line())
+    return out
+
+
+PYGEN['py_c15s'] = gen_c15s
+
+
 def gen_c11d(seed, count):
     """faults inside disconnect(): its DISCONNECT is written straight to the transport, so a write that fails, returns
     Ok(0) or is cut short (and a flush that fails) must still leave the handle dead; afterwards every kind of call is made"""
